@@ -3,7 +3,7 @@ TRUSTED = ("Trusted base: the rewriter and shims preserve the semantics of the c
            "the Go toolchain; the reference model written from the property statement. Bounded: universe, depth and caps are reported in the evidence.")
 
 add("C03", "SEQ", "model_checking", "explicit-state BFS over request histories on the implementation, to closure",
-    "All histories of tag pushes, digest pushes, tag deletes and digest deletes over 2 manifests x 2-3 tags are explored breadth-first on the real handler (both stores) until the canonical state set is closed; in every distinct state tag resolution, the listing and the whole n x last matrix are compared with a map model. Closure means unbounded history length inside the universe.",
+    "All histories of tag pushes, digest pushes, tag deletes and digest deletes over 2 manifests x 3-4 tags are explored breadth-first on the real handler (both stores) until the canonical state set is closed; in every distinct state tag resolution, the listing and the whole n x last matrix are compared with a map model. Closure means unbounded history length inside the universe.",
     TRUSTED, "DESIGN.md section 4 C03")
 
 add("C18", "SEQ", "model_checking", "explicit-state BFS over operation sequences on the real types.Index, to closure",
@@ -55,7 +55,7 @@ add("C10", "SEQ", "model_checking", "explicit-state BFS over step-by-step histor
     TRUSTED, "DESIGN.md section 4 C10")
 
 add("C09", "CRASH", "fault_enumeration", "exhaustive crash-point and torn-write enumeration of filesystem histories through the os shim, recovery oracle after reopen",
-    "For every history up to length 2 / 3 over 12 single-request operations from four start states (plus longer scripts), every mutating filesystem call of the directory store is a crash point and every write is torn at three offsets; the directory left behind is reopened by a new server and must load, hold only blob files that hash to their names, resolve every tag to a complete image, and show either the state before or the state after the interrupted request on all read endpoints, with every earlier acknowledged request in effect.",
+    "For every history up to length 3 / 4 over 12 single-request operations from four start states (plus longer scripts), every mutating filesystem call of the directory store is a crash point and every write is torn at three offsets; the directory left behind is reopened by a new server and must load, hold only blob files that hash to their names, resolve every tag to a complete image, and show either the state before or the state after the interrupted request on all read endpoints, with every earlier acknowledged request in effect.",
     TRUSTED + " Process-crash model (no loss of un-synced pages).", "DESIGN.md section 4 C09")
 
 add("C17", "CRASH", "fault_enumeration", "exhaustive enumeration of a generated layout family x stores, plus every crash point of each conversion, on the implementation",
